@@ -67,6 +67,9 @@ pub enum Scenario {
     Reload(ReloadKind),
     /// arbitrary datagrams arrive on the uplinks while traffic flows
     HostileReturn,
+    /// runtime control: set_conn_timeout (6000 -> 1500/2000 ms) and set_mode over the control socket while
+    /// traffic flows, then a black-hole: the new settings must be what the event loop acts on
+    Control,
 }
 
 #[derive(Clone, Debug)]
@@ -252,6 +255,13 @@ pub struct Session {
     /// per-socket kernel drop counters of this session's sockets (max seen per inode)
     sock_drops: HashMap<u64, u64>,
     my_ports: Vec<u16>,
+    cur_timeout_ms: u64,
+    ctl_new_timeout: u64,
+    ctl_new_mode: Option<String>,
+    ctl_mode_ack_tick: Option<u32>,
+    ctl_timeout_acked: bool,
+    ctl_fault_tick: Option<u32>,
+    stats_mode: String,
     err_answers_left: u32,
     /// REG3 frames the receiver side sent while the client was sending (each (re-)registers its uplink,
     /// which may strand one queued batch)
@@ -418,6 +428,13 @@ impl Session {
             reload_checked: false,
             sock_drops: HashMap::new(),
             my_ports: Vec::new(),
+            cur_timeout_ms: 0,
+            ctl_new_timeout: 0,
+            ctl_new_mode: None,
+            ctl_mode_ack_tick: None,
+            ctl_timeout_acked: false,
+            ctl_fault_tick: None,
+            stats_mode: String::new(),
             err_answers_left: 0,
             reg3_while_sending: 0,
             res: LiveResult::default(),
@@ -427,6 +444,7 @@ impl Session {
             subnet,
             o,
         };
+        s.cur_timeout_ms = s.o.timeout_ms;
         s.my_ports = vec![srt_port, rport, s.client.local_addr().map(|a| a.port()).unwrap_or(0)];
         // wait for the control socket, subscribe to the stats topic (the sender's logical clock)
         let deadline = now_us() + 20_000_000 * s.o.slow;
@@ -489,7 +507,7 @@ impl Session {
             self.viol("C19", "C19.live.datagram-from-unlisted-address", format!("datagram of {} bytes from {src}, an address that was never in the IP list", b.len()));
             return;
         };
-        let timeout_us = self.o.timeout_ms * 1000;
+        let timeout_us = self.cur_timeout_ms * 1000;
         // removed uplink must fall silent
         if let Some(p) = self.links[li].removed_after_push
             && self.ticks >= p
@@ -511,6 +529,22 @@ impl Session {
                 let last_reply = self.links[li].last_reply_us;
                 let e = format!("link {li}: new source address {src} (was {had:?}); registered={was_reg}, last reply let through {} ms ago", ts.saturating_sub(last_reply) / 1000);
                 self.ev(e);
+                if self.o.scenario == Scenario::Control
+                    && li == self.fault_link
+                    && let Some(ft) = self.ctl_fault_tick.take()
+                {
+                    // detection delay in sender ticks under the NEW timeout
+                    let took = self.ticks.saturating_sub(ft);
+                    let bound = self.ctl_new_timeout.div_ceil(1000) as u32 + 3;
+                    self.count("C18.control_timeout_effect_checked");
+                    self.add("C18.control_detection_ticks_total", took as u64);
+                    if took > bound && self.timing_reliable() {
+                        let d = format!("set_conn_timeout was answered with {} ms, yet the black-holed link {li} was only torn down {took} sender ticks after the fault began (bound {bound}); the start-up value was {} ms", self.ctl_new_timeout, self.o.timeout_ms);
+                        self.viol("C18", "C18.live.set-conn-timeout-not-effective", d);
+                    } else {
+                        self.count("C18.control_changes_effective");
+                    }
+                }
                 // C08: never earlier than the timeout (unless a send failed: Restart scenario)
                 if was_reg && reg3_age > 1_500_000 && !matches!(self.o.scenario, Scenario::Restart) {
                     self.count("C08.teardown_vs_timeout_checked");
@@ -518,7 +552,7 @@ impl Session {
                         let d = format!(
                             "link {li} was connected and the receiver's last datagram to it left {} ms before the sender re-opened its socket (first frame from {src}), but the configured timeout is {} ms: torn down although it had been heard from within the timeout (no send error is possible on this path)",
                             ts.saturating_sub(last_reply) / 1000,
-                            self.o.timeout_ms
+                            self.cur_timeout_ms
                         );
                         self.viol("C08", "C08.live.torn-down-before-timeout", d);
                     }
@@ -903,12 +937,40 @@ impl Session {
         }
         while let Some(p) = self.ctl_buf.iter().position(|c| *c == b'\n') {
             let line: Vec<u8> = self.ctl_buf.drain(..=p).collect();
-            if let Ok(v) = serde_json::from_slice::<Value>(&line)
-                && v["method"] == "stats.update"
-            {
-                let data = v["params"]["data"].clone();
-                self.on_tick(&data);
+            if let Ok(v) = serde_json::from_slice::<Value>(&line) {
+                if v["method"] == "stats.update" {
+                    let data = v["params"]["data"].clone();
+                    self.on_tick(&data);
+                } else if let Some(id) = v["id"].as_u64() {
+                    self.on_ctl_response(id, &v);
+                }
             }
+        }
+    }
+
+    fn on_ctl_response(&mut self, id: u64, v: &Value) {
+        match id {
+            101 => {
+                let applied = v["result"]["ms"].as_u64();
+                self.ev(format!("set_conn_timeout answered: {}", v));
+                if applied != Some(self.ctl_new_timeout) {
+                    let d = format!("set_conn_timeout {} answered {v}", self.ctl_new_timeout);
+                    self.viol("C18", "C18.live.set-conn-timeout-response", d);
+                } else {
+                    self.cur_timeout_ms = self.ctl_new_timeout;
+                    self.ctl_timeout_acked = true;
+                }
+            }
+            102 => {
+                self.ev(format!("set_mode answered: {}", v));
+                if v["result"]["mode"].as_str().map(|s| s.to_string()) != self.ctl_new_mode {
+                    let d = format!("set_mode {:?} answered {v}", self.ctl_new_mode);
+                    self.viol("C18", "C18.live.set-mode-response", d);
+                } else {
+                    self.ctl_mode_ack_tick = Some(self.ticks);
+                }
+            }
+            _ => {}
         }
     }
 
@@ -920,6 +982,17 @@ impl Session {
         }
         self.last_push_us = now;
         self.ticks += 1;
+        self.stats_mode = data["mode"].as_str().unwrap_or("").to_string();
+        if let (Some(at), Some(m)) = (self.ctl_mode_ack_tick, self.ctl_new_mode.clone())
+            && self.ticks >= at + 2
+        {
+            self.count("C18.control_mode_visible_checked");
+            if self.stats_mode != m {
+                let d = format!("set_mode {m} was acknowledged at tick {at}; the stats push at tick {} still reports mode {:?}", self.ticks, self.stats_mode);
+                self.viol("C18", "C18.live.set-mode-not-visible-in-stats", d);
+                self.ctl_mode_ack_tick = None;
+            }
+        }
         self.stats_active = data["active_links"].as_u64().unwrap_or(0) as usize;
         self.stats_total = data["total_links"].as_u64().unwrap_or(0) as usize;
         self.stats_ips.clear();
@@ -1015,11 +1088,49 @@ impl Session {
                 }
                 Scenario::Forget { .. } | Scenario::Restart => self.set_phase(3),
                 Scenario::Reload(_) => self.set_phase(3),
+                Scenario::Control => {
+                    if self.ctl_fault_tick.is_none() && !self.links[self.fault_link].fault {
+                        // settings acknowledged two ticks ago: now the black-hole
+                        if in_phase >= 2 {
+                            if !self.ctl_timeout_acked || self.ctl_mode_ack_tick.is_none() {
+                                if self.timing_reliable() {
+                                    let d = format!("no response to set_conn_timeout / set_mode on the subscribed control connection within {in_phase} sender ticks (timeout acked {}, mode acked {:?})", self.ctl_timeout_acked, self.ctl_mode_ack_tick);
+                                    self.viol("C18", "C18.live.control-request-not-answered", d);
+                                }
+                                self.set_phase(4);
+                                return;
+                            }
+                            let li = self.fault_link;
+                            let ip = IpAddr::V4(self.links[li].ip.unwrap());
+                            self.sim.set_path(ip, RxPath::BlackHole);
+                            self.links[li].fault = true;
+                            self.links[li].pristine = false;
+                            self.ctl_fault_tick = Some(self.ticks);
+                            self.ev(format!("black-hole on link {li} under the new timeout {} ms", self.cur_timeout_ms));
+                        }
+                    } else if self.links[self.fault_link].fault && (self.ctl_fault_tick.is_none() || in_phase > 16) {
+                        // torn down (or hopelessly late): repair and watch the recovery
+                        if let Some(ft) = self.ctl_fault_tick.take()
+                            && self.timing_reliable()
+                        {
+                            let d = format!("set_conn_timeout was answered with {} ms, yet the black-holed link {} was not torn down within {} sender ticks", self.ctl_new_timeout, self.fault_link, self.ticks - ft);
+                            self.viol("C18", "C18.live.set-conn-timeout-not-effective", d);
+                        }
+                        let li = self.fault_link;
+                        let ip = IpAddr::V4(self.links[li].ip.unwrap());
+                        self.sim.set_path(ip, RxPath::Healthy);
+                        self.links[li].fault = false;
+                        self.links[li].repaired_tick = Some(self.ticks);
+                        self.links[li].rereg_tick = None;
+                        self.ev(format!("link {li} repaired"));
+                        self.set_phase(3);
+                    }
+                }
             },
             3 => {
                 let cap = 36;
                 match self.o.scenario {
-                    Scenario::BlackHole | Scenario::NoReturn => {
+                    Scenario::BlackHole | Scenario::NoReturn | Scenario::Control => {
                         let li = self.fault_link;
                         let back = self.links[li].rereg_tick.is_some() || (self.links[li].teardowns == 0 && self.links[li].registered);
                         if back && self.links[li].st_connected {
@@ -1132,6 +1243,21 @@ impl Session {
                 self.ev("receiver socket closed".into());
             }
             Scenario::Reload(kind) => self.do_reload(kind),
+            Scenario::Control => {
+                self.fault_link = self.rng.usize_below(n);
+                self.ctl_new_timeout = *self.rng.pick(&[1500u64, 2000]);
+                let m = if self.o.classic { "enhanced" } else { "classic" };
+                self.ctl_new_mode = Some(m.to_string());
+                let q = self.rng.chance(1, 2);
+                let req = format!(
+                    "{{\"jsonrpc\":\"2.0\",\"method\":\"set_conn_timeout\",\"params\":{{\"ms\":{}}},\"id\":101}}\n{{\"jsonrpc\":\"2.0\",\"method\":\"set_mode\",\"params\":{{\"mode\":\"{m}\"}},\"id\":102}}\n{{\"jsonrpc\":\"2.0\",\"method\":\"set_quality\",\"params\":{{\"enabled\":{q}}},\"id\":103}}\n",
+                    self.ctl_new_timeout
+                );
+                if let Some(c) = self.ctl.as_mut() {
+                    let _ = c.write_all(req.as_bytes());
+                }
+                self.ev(format!("control: set_conn_timeout {} set_mode {m} set_quality {q}", self.ctl_new_timeout));
+            }
         }
     }
 
@@ -1521,14 +1647,14 @@ pub fn vlive_path() -> PathBuf {
 
 pub fn gen_opts(rng: &mut Rng, scenario: Scenario, bin: &std::path::Path) -> LiveOpts {
     let n_links = match scenario {
-        Scenario::BlackHole | Scenario::NoReturn => 2 + rng.usize_below(3),
+        Scenario::BlackHole | Scenario::NoReturn | Scenario::Control => 2 + rng.usize_below(3),
         Scenario::Reload(_) => 2 + rng.usize_below(2),
         _ => 1 + rng.usize_below(4),
     };
     LiveOpts {
         n_links,
         classic: rng.chance(1, 2),
-        timeout_ms: *rng.pick(&[3000u64, 3000, 4000]),
+        timeout_ms: if scenario == Scenario::Control { 6000 } else { *rng.pick(&[3000u64, 3000, 4000]) },
         scenario,
         pps: *rng.pick(&[200u64, 800, 2000]),
         no_quality: rng.chance(1, 4),
